@@ -30,6 +30,9 @@ def run(tier: str) -> int:
             {"Family": "trivfx", "MaxLen": 3, "Starts": "zero", "Sample": 150, "workers": 3},
             {"Family": "ci", "MaxLen": 3, "Starts": "zero", "Sample": 100, "workers": 3},
             {"Family": "names", "MaxLen": 3, "Starts": "zero", "Sample": 250, "workers": 3},
+            {"Family": "bounds", "MaxLen": 3, "Starts": "zero", "Sample": 300, "workers": 3},
+            {"Family": "stacke", "MaxLen": 3, "Starts": "zero", "Sample": 300, "workers": 3},
+            {"Family": "nl", "MaxLen": 3, "Starts": "all", "Sample": 150, "workers": 3},  # failures after a trailing line break, on an empty line
         ]
     else:
         fams = [
@@ -45,6 +48,9 @@ def run(tier: str) -> int:
             {"Family": "trivfx", "MaxLen": 4, "Starts": "zero", "Sample": 0, "workers": 8},
             {"Family": "ci", "MaxLen": 3, "Starts": "zero", "Sample": 0, "workers": 8},
             {"Family": "names", "MaxLen": 3, "Starts": "zero", "Sample": 0, "workers": 8},
+            {"Family": "bounds", "MaxLen": 4, "Starts": "zero", "Sample": 0, "workers": 8},
+            {"Family": "stacke", "MaxLen": 4, "Starts": "zero", "Sample": 0, "workers": 8},
+            {"Family": "nl", "MaxLen": 4, "Starts": "all", "Sample": 0, "workers": 8},
         ]
     for f in fams:
         replay.run_family(rep, f, "total", modes)
